@@ -242,75 +242,110 @@ func stmtNorm(c *schema.Ctx, s ast.Stmt) string {
 	return fmt.Sprintf("«%T»", s)
 }
 
-// applyDecorationsSinks: in applyDecorations, the `if isComment { ... }` block sends the comment to
-// exactly one sink on each branch and then advances the cursor by len(d) once.
+// applyDecorationsSinks: in applyDecorations every comment goes to exactly one sink, at the
+// cursor, and then the cursor advances by its length. Decided on path conditions (truth tables
+// over the atoms of the enclosing conditions, locals and named constants inlined), not on the
+// shape of the statements.
 func (e *Env) applyDecorationsSinks() {
 	pkg := e.Prog.Pkg(load.PkgDecorator)
 	c := e.Sib.Ctx[load.PkgDecorator]
+	info := pkg.TypesInfo
 	fd := load.FuncDecl(pkg, "FileRestorer", "applyDecorations")
 	if fd == nil || fd.Body == nil {
 		e.Run.Violation("R-SINK", "applyDecorations exists", "", "function missing")
 		return
 	}
+	c.ComputeSubst(fd.Body.List, map[string]bool{"cursor": true, "cursorAtNewLine": true, "lines": true, "comments": true})
+	defer func() { c.Subst = nil }()
 	var loop *ast.RangeStmt
 	for _, st := range fd.Body.List {
-		if rs, ok := st.(*ast.RangeStmt); ok {
+		if rs, ok := st.(*ast.RangeStmt); ok && c.ExprStr(rs.X) == "decorations" {
 			loop = rs
 		}
 	}
 	if loop == nil {
-		e.Run.Violation("R-SINK", "applyDecorations iterates the decorations", e.Prog.Pos(fd.Pos()), "no range loop")
+		e.Run.Violation("R-SINK", "applyDecorations ranges over its decorations parameter", e.Prog.Pos(fd.Pos()), "no `for _, d := range decorations`")
 		return
 	}
-	e.Run.Check("R-SINK", "applyDecorations ranges over its decorations parameter", e.Prog.Pos(loop.Pos()), c.ExprStr(loop.X) == "decorations", "ranges over "+c.ExprStr(loop.X))
-	var blk *ast.IfStmt
-	for _, st := range loop.Body.List {
-		if is, ok := st.(*ast.IfStmt); ok && c.ExprStr(is.Cond) == "isComment" && is.Init == nil && is.Else == nil {
-			blk = is
+	bad := ""
+	ast.Inspect(loop.Body, func(n ast.Node) bool {
+		if _, ok := n.(*ast.FuncLit); ok {
+			return false
 		}
-		if bs, ok := st.(*ast.BranchStmt); ok {
-			e.Run.Violation("R-SINK", "applyDecorations loop has no continue/break", e.Prog.Pos(bs.Pos()), "a decoration would be skipped")
-		}
-	}
-	if blk == nil {
-		e.Run.Violation("R-SINK", "applyDecorations has a comment block", e.Prog.Pos(loop.Pos()), "no `if isComment { ... }` statement in the loop body")
-		return
-	}
-	pos := e.Prog.Pos(blk.Pos())
-	// shape: if <cond> { addCommentField(node, r.cursor, d) } else { r.comments = append(r.comments, &CommentGroup{List: []*Comment{{Slash: r.cursor, Text: d}}}) } ; r.cursor += token.Pos(len(d))
-	okShape := len(blk.Body.List) == 2
-	detail := ""
-	if okShape {
-		inner, ok := blk.Body.List[0].(*ast.IfStmt)
-		okShape = ok
-		if ok {
-			thenS, elseS := "", ""
-			for _, s := range inner.Body.List {
-				thenS += stmtNorm(c, s) + ";"
+		if bs, ok := n.(*ast.BranchStmt); ok {
+			// a continue/break in the decoration loop itself (not in an inner loop over the text)
+			inner := false
+			ast.Inspect(loop.Body, func(m ast.Node) bool {
+				switch l := m.(type) {
+				case *ast.RangeStmt:
+					if l.Body.Pos() <= bs.Pos() && bs.End() <= l.Body.End() {
+						inner = true
+					}
+				case *ast.ForStmt:
+					if l.Body.Pos() <= bs.Pos() && bs.End() <= l.Body.End() {
+						inner = true
+					}
+				}
+				return true
+			})
+			if !inner {
+				bad = bs.Tok.String()
 			}
-			if el, ok := inner.Else.(*ast.BlockStmt); ok {
-				for _, s := range el.List {
-					elseS += stmtNorm(c, s) + ";"
+		}
+		return true
+	})
+	e.Run.Check("R-SINK", "applyDecorations loop has no continue/break", e.Prog.Pos(loop.Pos()), bad == "", "a decoration would be skipped: "+bad)
+	var dName string
+	if id, ok := loop.Value.(*ast.Ident); ok {
+		dName = id.Name
+	}
+	isComment := fmt.Sprintf("(strings.HasPrefix(%s, \"//\") || strings.HasPrefix(%s, \"/*\"))", dName, dName)
+	toField := "firstLine && end && r.hasCommentField(node)"
+	var fieldSite, freeSite, advSite ast.Node
+	nField, nFree, nAdv := 0, 0, 0
+	ast.Inspect(loop.Body, func(n ast.Node) bool {
+		switch x := n.(type) {
+		case *ast.CallExpr:
+			if schema.IsMethod(c.Callee(x), load.PkgDecorator, "FileRestorer", "addCommentField") {
+				nField++
+				if len(x.Args) == 3 && c.ExprStr(x.Args[0]) == "node" && c.ExprStr(x.Args[1]) == "r.cursor" && c.ExprStr(x.Args[2]) == dName {
+					fieldSite = x
 				}
 			}
-			wantThen := "r.addCommentField(node, r.cursor, d);"
-			wantElse := "r.comments = append(r.comments, &CommentGroup{List: []*Comment{{Slash: r.cursor, Text: d}}});"
-			if thenS != wantThen || elseS != wantElse {
-				okShape = false
-				detail = fmt.Sprintf("then: «%s» else: «%s»", thenS, elseS)
+		case *ast.AssignStmt:
+			if len(x.Lhs) != 1 || len(x.Rhs) != 1 {
+				return true
 			}
-			cond := c.ExprStr(inner.Cond)
-			if !strings.Contains(cond, "r.hasCommentField(node)") || !strings.Contains(cond, "end") || !strings.Contains(cond, "firstLine") {
-				okShape = false
-				detail += " condition: " + cond
+			if e.isRestorerField(info, x.Lhs[0], "comments") {
+				nFree++
+				if c.ExprStr(x.Rhs[0]) == "append(r.comments, &CommentGroup{List: []*Comment{{Slash: r.cursor, Text: "+dName+"}}})" {
+					freeSite = x
+				}
+			}
+			if e.isRestorerField(info, x.Lhs[0], "cursor") && x.Tok == token.ADD_ASSIGN && c.ExprStr(x.Rhs[0]) == "token.Pos(len("+dName+"))" {
+				nAdv++
+				advSite = x
 			}
 		}
-		adv := stmtNorm(c, blk.Body.List[1])
-		if adv != "r.cursor += token.Pos(len(d))" {
-			okShape = false
-			detail += " advance: " + adv
-		}
+		return true
+	})
+	pos := e.Prog.Pos(loop.Pos())
+	if fieldSite == nil || freeSite == nil || advSite == nil || nField != 1 || nFree != 1 || nAdv != 1 {
+		e.Run.Violation("R-SINK", "applyDecorations: each comment goes to exactly one sink, at the cursor, then the cursor advances by its length", pos,
+			fmt.Sprintf("expected exactly one r.addCommentField(node, r.cursor, %s), one append of a group {Slash: r.cursor, Text: %s} to r.comments and one r.cursor += token.Pos(len(%s)) per decoration; found %d/%d/%d (of the expected form: %v/%v/%v)", dName, dName, dName, nField, nFree, nAdv, fieldSite != nil, freeSite != nil, advSite != nil))
+		return
 	}
-	e.Run.Check("R-SINK", "applyDecorations: each comment goes to exactly one sink, at the cursor, then the cursor advances by its length", pos, okShape,
-		"expected `if firstLine && end && r.hasCommentField(node) { r.addCommentField(node, r.cursor, d) } else { r.comments = append(r.comments, <group at r.cursor with text d>) }; r.cursor += token.Pos(len(d))`; "+detail)
+	pcField, ok1 := pathCond(c, loop.Body.List, fieldSite)
+	pcFree, ok2 := pathCond(c, loop.Body.List, freeSite)
+	pcAdv, ok3 := pathCond(c, loop.Body.List, advSite)
+	eq1, d1 := equivalentGuards(pcField, isComment+" && "+toField)
+	eq2, d2 := equivalentGuards(pcFree, isComment+" && !("+toField+")")
+	eq3, d3 := equivalentGuards(pcAdv, isComment)
+	if !(ok1 && ok2 && ok3 && d1 && d2 && d3) {
+		e.Run.Undecided("R-SINK", "applyDecorations: each comment goes to exactly one sink, at the cursor, then the cursor advances by its length", pos, "path conditions outside the propositional subset: "+pcField+" | "+pcFree+" | "+pcAdv)
+		return
+	}
+	order := fieldSite.Pos() < advSite.Pos() && freeSite.Pos() < advSite.Pos()
+	e.Run.Check("R-SINK", "applyDecorations: each comment goes to exactly one sink, at the cursor, then the cursor advances by its length", pos, eq1 && eq2 && eq3 && order,
+		fmt.Sprintf("Comment-field sink reached when «%s» (want: comment ∧ firstLine ∧ end ∧ hasCommentField), free list when «%s» (want: comment ∧ ¬that), cursor advance when «%s» (want: every comment), sinks before the advance: %v", pcField, pcFree, pcAdv, order))
 }
